@@ -390,7 +390,9 @@ pub fn c15a_case(ex: &mut Expander, tape: &Vec<u32>, st: &mut Stats) -> Result<(
             if m.kind().is_none() {
                 continue;
             }
-            match (mi + t.pick(4)) % 5 {
+            match (mi + t.pick(6)) % 7 {
+                4 => m.args.push(Arg { name: format!("g{mi}"), ty: Ty::Arr2(Box::new(Ty::Param(1))), attrs: vec![] }),
+                5 => m.args.push(Arg { name: format!("g{mi}"), ty: Ty::Map(Box::new(Ty::Boxed(Box::new(Ty::Param(0))))), attrs: vec![] }),
                 0 => m.args.push(Arg { name: format!("g{mi}"), ty: Ty::Param(0), attrs: vec![] }),
                 1 => m.args.push(Arg { name: format!("g{mi}"), ty: Ty::Vec(Box::new(Ty::Opt(Box::new(Ty::Param(1))))), attrs: vec![] }),
                 2 => m.args.push(Arg { name: format!("g{mi}"), ty: Ty::Tup2(Box::new(Ty::Param(0)), Box::new(Ty::U32)), attrs: vec![] }),
